@@ -84,7 +84,7 @@ func UniquePool() []Member {
 func Run(r *ev.Run) {
 	thorough := r.Tier == "thorough"
 	r.Rule("(i) enum lists of length 0..2 (thorough 3) and const over a 25-value pool, built by Unmarshal and as Go literals in canonical and in two alternative exact representations, x every pool value in every G-rep representation (<=1 deviating node): pass iff R2-equal to a member; " +
-		"(ii) uniqueItems on every []any of length 0..3 (thorough 4; quick length 4 over a 12-element sub-pool) over a 25-element pool with equal-but-not-identical members (1 / json.Number 1.0 / 1e0 / int8(1); permuted and differently typed maps; []any / []int / [1]int; 2^63 as uint64 and float64; 256 as float64 and json.Number; nil and nil pointer): pass iff no two elements are R2-equal. Every call draws a fresh hash seed; each array is validated 3 times. Non-trivial = every case (distinct by construction)")
+		"(ii) uniqueItems on every []any of length 0..3 (thorough 4; quick length 4 over a 12-element sub-pool) over a 25-element pool with equal-but-not-identical members (1 / json.Number 1.0 / 1e0 / int8(1); permuted and differently typed maps; []any / []int / [1]int; 2^63 as uint64 and float64; 256 as float64 and json.Number; nil and nil pointer): pass iff no two elements are R2-equal. Every call draws a fresh hash seed; each array is validated 3 times; (iii) uniqueItems / enum / const below applicators that do not abort the call (contains, anyOf, oneOf, not, if) x every pair and selected triples of 9 small arrays in one instance, compared with R1. Non-trivial = every case (distinct by construction)")
 	r.Assume("R2 canonical equality is the oracle; the hash-family exploration of the seed quantifier runs in the instrumented build (C12 env part)")
 	vals := gen.Vals(enumPool...)
 	// instances in every representation
@@ -329,7 +329,38 @@ func Run(r *ev.Run) {
 			r.Sample(map[string]any{"call": key, "want_valid": want})
 		}
 	})
+	nestedUnique(r)
 	if r.OnlyKey == "" || true {
 		envrun.Explore(r, "ENV", "c12hash", "env", 16)
 	}
+}
+
+// nestedUnique: uniqueItems (and enum / const) below applicators that do not abort the call when
+// the keyword fails, applied to several arrays in one Validate call: every array is judged on its
+// own elements, whatever was found in the arrays judged before it.
+func nestedUnique(r *ev.Run) {
+	schemas := []string{
+		`{"contains":{"uniqueItems":true}}`, `{"contains":{"uniqueItems":true},"minContains":2}`, `{"items":{"anyOf":[{"uniqueItems":true},{"maxItems":0}]}}`, `{"not":{"items":{"uniqueItems":true}}}`,
+		`{"items":{"not":{"uniqueItems":true}}}`, `{"prefixItems":[{"not":{"uniqueItems":true}},{"uniqueItems":true}]}`, `{"properties":{"a":{"not":{"uniqueItems":true}},"b":{"uniqueItems":true},"c":{"uniqueItems":true}}}`,
+		`{"items":{"oneOf":[{"uniqueItems":true},{"minItems":3}]}}`, `{"items":{"if":{"uniqueItems":true},"then":{"maxItems":2},"else":{"minItems":2}}}`, `{"items":{"uniqueItems":true,"items":{"uniqueItems":true}}}`,
+		`{"contains":{"enum":[[1,1],[2,1]]},"items":{"not":{"const":[1,2]}}}`, `{"additionalProperties":{"anyOf":[{"uniqueItems":true},{"const":[1,1]}]}}`,
+	}
+	arrs := []string{`[1,1]`, `[2,1]`, `[1,2]`, `[1]`, `[]`, `[1,1.0]`, `["1",1]`, `[[1],[1]]`, `[{"a":1},{"a":1.0}]`}
+	var insts []string
+	for _, a := range arrs {
+		for _, b := range arrs {
+			insts = append(insts, `[`+a+`,`+b+`]`, `{"a":`+a+`,"b":`+b+`}`)
+			if a == `[1,1]` || b == `[1]` {
+				for _, c := range arrs[:4] {
+					insts = append(insts, `[`+a+`,`+b+`,`+c+`]`, `{"a":`+a+`,"b":`+b+`,"c":`+c+`}`)
+				}
+			}
+		}
+	}
+	pool := drive.MkPool(gen.Vals(insts...))
+	r.Set("nested_unique_schemas", len(schemas))
+	r.Set("nested_unique_instances", len(pool))
+	par.For(len(schemas), r.Expired, func(i int, j par.Journal) {
+		drive.Against(r, j, schemas[i], pool, drive.Opt{Draft: ref.D2020, Prefix: "nested: "})
+	})
 }
